@@ -141,6 +141,15 @@ class Interp:
         e.fields["_origin"] = anchor(node) if node is not None else ""
         raise PyRaise(e)
 
+    def dunder_or_typeerror(self, obj, dunders, node, msg):
+        """a TypeError for an operation the object's class does not support -- unless the class (in the repository) defines the
+        special method that would implement it: those protocols are not dispatched by the engine (out of subset)"""
+        if isinstance(obj, Obj) and obj.cls is not None:
+            for d in dunders:
+                if obj.cls.lookup(d) is not None:
+                    self.unsupported(f"{obj.cls.name}.{d} (special-method protocol not modelled)", node)
+        self.guard(False, "TypeError", node, msg)
+
     def guard(self, ok, clsname, node=None, msg=""):
         """Primitive precondition: when `ok` can be false the host exception `clsname` is raised on that path."""
         if isinstance(ok, bool):
@@ -322,12 +331,15 @@ class Interp:
     def s_With(self, node, frame):
         for item in node.items:
             v = self.eval(item.context_expr, frame)
+            if isinstance(v, Obj) and v.cls.lookup("__exit__") is not None and not getattr(v.cls, "builtin", False):
+                # a context manager written in the repository can swallow or replace exceptions: not modelled
+                self.unsupported("with-statement over a user-defined context manager", node)
             if item.optional_vars is not None:
                 self.assign(item.optional_vars, v, frame)
         self.exec_block(node.body, frame)
 
     def s_FunctionDef(self, node, frame):
-        f = PyFunc(node, frame.module)
+        f = self.world._decorated(PyFunc(node, frame.module), node)
         f.closure = frame
         frame.locals[node.name] = f
 
@@ -434,7 +446,7 @@ class Interp:
         if isinstance(it, GenVal):
             return it.items
         if isinstance(it, Obj):
-            self.guard(False, "TypeError", node, f"'{it.cls.name}' object is not iterable")
+            self.dunder_or_typeerror(it, ("__iter__", "__getitem__"), node, f"'{it.cls.name}' object is not iterable")
         if it is None or isinstance(it, (int, SInt, SBool, bool, float, SFloat)):
             self.guard(False, "TypeError", node, "object is not iterable")
         if isinstance(it, BoundMethod) or isinstance(it, (PyFunc, Builtin)):
@@ -977,6 +989,10 @@ class Interp:
                 return h(self, list(args), kwargs, node)
             return self.call_func(fn, list(args), kwargs, node)
         if isinstance(fn, Builtin):
+            if kwargs and (fn.name.split(".")[0] in ("str", "list", "dict", "set", "tuple", "bytes") or self.world.builtins.get(fn.name) is fn) \
+                    and fn.name not in ("sorted", "int", "dict", "print", "open", "str.encode", "bytes.decode"):
+                # a keyword argument changes what a host function does; the models take positional arguments only
+                self.unsupported(f"keyword arguments {sorted(kwargs)} of host function {fn.name}", node)
             return fn.impl(self, list(args), kwargs, node)
         if isinstance(fn, BoundMethod2):
             return fn.builtin.impl(self, [fn.obj] + list(args), kwargs, node)
@@ -988,7 +1004,7 @@ class Interp:
                 return self.call(BoundMethod(m, fn), args, kwargs, node)
         if isinstance(fn, AbstractCallable):
             return fn.handler(self, list(args), kwargs, node)
-        self.guard(False, "TypeError", node, f"'{type(fn).__name__}' object is not callable")
+        self.dunder_or_typeerror(fn, ("__call__",), node, f"'{type(fn).__name__}' object is not callable")
 
     def instantiate(self, cls, args, kwargs, node):
         if getattr(cls, "unknown_decorator", None):
@@ -1233,6 +1249,11 @@ class Interp:
             if is_intlike(a) and is_intlike(b):
                 return self.int_binop(t, a, b, node)
             return self.float_binop(t, a, b, node)
+        ops = ("__add__", "__radd__", "__sub__", "__rsub__", "__mul__", "__rmul__", "__truediv__", "__floordiv__", "__mod__", "__pow__", "__and__", "__or__",
+               "__xor__", "__lshift__", "__rshift__", "__matmul__", "__rtruediv__", "__rfloordiv__", "__rmod__", "__rpow__")
+        for o_ in (a, b):
+            if isinstance(o_, Obj) and o_.cls is not None and any(o_.cls.lookup(d) is not None for d in ops):
+                self.unsupported(f"arithmetic special methods of {o_.cls.name} are not modelled", node)
         self.guard(False, "TypeError", node,
                    f"unsupported operand type(s) for {t.__name__}: {_tn(a)} and {_tn(b)}")
 
@@ -1512,7 +1533,7 @@ class Interp:
             m = cont.cls.lookup("__contains__")
             if m is not None:
                 return self.call(BoundMethod(m, cont), [x], {}, node)
-        self.guard(False, "TypeError", node, f"argument of type {_tn(cont)} is not iterable")
+        self.dunder_or_typeerror(cont, ("__contains__", "__iter__", "__getitem__"), node, f"argument of type {_tn(cont)} is not iterable")
 
     def py_member_eq(self, item, x, node):
         """`x is item or x == item` as used by list/dict/set membership."""
@@ -1718,7 +1739,7 @@ class Interp:
                 return self.call(BoundMethod(m, cont) if isinstance(m, PyFunc) else BoundMethod2(m, cont), [idx], {}, node)
         if isinstance(cont, ScriptAbs):
             return cont.getitem(self, idx, node)
-        self.guard(False, "TypeError", node, f"{_tn(cont)} object is not subscriptable")
+        self.dunder_or_typeerror(cont, ("__getitem__", "__class_getitem__"), node, f"{_tn(cont)} object is not subscriptable")
 
     def setitem(self, cont, idx, v, node=None):
         if isinstance(cont, PList):
@@ -1739,7 +1760,7 @@ class Interp:
             return
         if isinstance(cont, PDict):
             return self.dict_set(cont, idx, v, node)
-        self.guard(False, "TypeError", node, f"{_tn(cont)} object does not support item assignment")
+        self.dunder_or_typeerror(cont, ("__setitem__",), node, f"{_tn(cont)} object does not support item assignment")
 
     def delitem(self, cont, idx, node=None):
         if isinstance(cont, PList):
@@ -1792,7 +1813,7 @@ class Interp:
             s = self.list_seq(cont, cont.kind, node)
             a, b = self.slice_bounds(lo, hi, mk_int(z3.Length(s)))
             return PList(sym=z3.If(a < b, z3.SubSeq(s, a, b - a), z3.Empty(s.sort())), kind=cont.kind)
-        self.guard(False, "TypeError", node, f"{_tn(cont)} object is not subscriptable")
+        self.dunder_or_typeerror(cont, ("__getitem__", "__class_getitem__"), node, f"{_tn(cont)} object is not subscriptable")
 
     def list_eq(self, a, b, node):
         if a.is_sym() or b.is_sym():
